@@ -56,6 +56,22 @@ def mesh_morph(nmin=2, nmax=40):
                      st.integers(nmin, nmax), logf(-2, 2), st.one_of(st.just(0.0), f(-5, 5)), law)
 
 
+def mesh_morph_moving(nmin=2, nmax=40):
+    """morphed meshes whose image is NOT the nominal interval (mesh.length keeps the nominal value): an affine rescaling x0 + (1+eps)(x-x0) + delta L (equal
+    cells, other extent) or x + b L sin(x/L)"""
+    # affine: the stretch is chosen from the distance across the periodic seam it produces, seam = xc[0] + length - xc[-1] = s cells (s = 1: the nominal mesh),
+    # because flowdyn's periodic closure uses the nominal length: eps = n/(n-1+s) - 1
+    law = st.one_of(st.builds(lambda sc, d: ("affine-seam", [sc, d]), st.one_of(f(0.25, 4.0), st.sampled_from([0.5, 2.0, 3.0])), st.one_of(st.just(0.0), f(-1, 1))),
+                    st.builds(lambda b: ("wave", b), f(-0.5, 0.5)))
+
+    def mk(n, L, x0, lw):
+        if lw[0] == "affine-seam":
+            sc, d = lw[1]
+            return dict(kind="morph", n=n, length=L, x0=x0, law="affine", param=[n / (n - 1.0 + sc) - 1.0, d])
+        return dict(kind="morph", n=n, length=L, x0=x0, law=lw[0], param=lw[1])
+    return st.builds(mk, st.integers(nmin, nmax), logf(-2, 2), st.one_of(st.just(0.0), f(-5, 5)), law)
+
+
 def mesh_refined(nmin=2, nmax=40):
     return st.builds(lambda n, L, r, a, b: dict(kind="refined", n=n, length=L, ratio=r, a=a, b=b),
                      st.integers(nmin, nmax), logf(-2, 2), st.one_of(logf(-1, 1), st.sampled_from([0.5, 1.0, 2.0])),
